@@ -87,6 +87,46 @@ theorem c09_last_write_wins {V : Type} (n : Nat) (ins : List (Int × V)) (d : Di
   have := dictGet_setAll n ins [] d hset k
   simpa [dictGet] using this
 
+def exSerH (v : Bool) : Option Val := some ([v, v], [])
+
+/-- HISTORY INDEPENDENCE of `serialize()`.  On one `HashMap` object, after ANY history of `set_int_key` and `serialize()`
+calls (interleaved in any way, rejected keys included), the object's map is the one the `set` calls alone produce, and a
+`serialize()` made now returns `serialize` of THAT map: earlier `serialize()` calls leave no trace (nothing is memoised), so the
+round-trip theorem applies to the cell returned at any point of an object's life, e.g. after a key was overwritten. -/
+theorem c09_serialize_history_free {V : Type} (n : Nat) (ser : V → Option Val) (ops : List (HOp V)) (d : Dict V) :
+    (runOps n ser ops d).1 = applySets n (setsOf ops) d ∧
+    (runOps n ser (ops ++ [.serialize]) d).2.getLast? = some (serialize n ser (applySets n (setsOf ops) d)) := by
+  induction ops generalizing d with
+  | nil => simp [runOps, setsOf, applySets]
+  | cons op rest ih =>
+    cases op with
+    | set k v => simpa [runOps, setsOf, applySets] using ih _
+    | serialize =>
+      obtain ⟨h1, h2⟩ := ih d
+      refine ⟨by simpa [runOps, setsOf] using h1, ?_⟩
+      simp only [List.cons_append, runOps, setsOf]
+      rw [List.getLast?_cons]
+      simp [h2]
+
+/-- when every `set` of the history is accepted, the lenient application is `setAll` (so `c09_roundtrip` speaks about it) -/
+theorem c09_applySets_eq_setAll {V : Type} (n : Nat) (ins : List (Int × V)) (d d' : Dict V) (h : setAll n ins d = some d') :
+    applySets n ins d = d' := by
+  induction ins generalizing d with
+  | nil => simpa [setAll, applySets] using h
+  | cons kv rest ih =>
+    obtain ⟨k, v⟩ := kv
+    simp only [setAll] at h
+    cases hs : setIntKey n k v d with
+    | none => simp [hs] at h
+    | some d1 =>
+      rw [hs] at h
+      simpa [applySets, hs] using ih d1 h
+
+/-- non-vacuity: set 2↦T, serialize, overwrite 2↦F (same entry count), serialize: the second result is the cell of {2↦F}, not the first one -/
+example : (runOps 2 exSerH [.set 2 true, .serialize, .set 2 false, .serialize] []).2
+    = [serialize 2 exSerH [(2, true)], serialize 2 exSerH [(2, false)]] := by
+  simp [runOps, setIntKey, bitLength, dictSet]
+
 /-! non-vacuity of the round trip: a 2-bit map written as 2 ↦ T, 1 ↦ F, 2 ↦ F is accepted and serialises -/
 def exSer (v : Bool) : Option Val := some ([v, v], [])
 def exIns : List (Int × Bool) := [(2, true), (1, false), (2, false)]
